@@ -20,6 +20,21 @@ def shortOutcome : Outcome → String
   | .unreadable => "unreadable"
   | .routeError => "routeerr"
 
+/-- a CONNECT outcome in short: the Via field lines of the head sent to the upstream proxy, if any -/
+def shortConnectOutcome : ConnectOutcome → String
+  | .refused st why => s!"refused-{st}-{whyName why}"
+  | .badRequest => "badreq"
+  | .unreadable => "unreadable"
+  | .mitm => "mitm"
+  | .routeError => "routeerr"
+  | .tunnel a =>
+    match connectHead (.tunnel a) with
+    | some head => s!"tunnel:{viaName' a.via}:{hexList (outVia head)}"
+    | none => s!"tunnel-raw:{viaName' a.via}"
+where
+  viaName' : Via → String
+    | .direct => "direct" | .http => "http" | .https => "https" | .socks5 => "socks5"
+
 /-- split a token list at the `|` tokens -/
 def splitBar (toks : List String) : List (List String) :=
   let rec go (cur : List String) (acc : List (List String)) : List String → List (List String)
@@ -68,6 +83,25 @@ def handle : List String → String
       | .ok => "true"
       | v => s!"false {verdictName v}"
     | _, _, _, _ => "bad-op"
+  | "connect" :: toks =>
+    -- one CONNECT under a configuration: outcome + Via lines of the head the upstream proxy receives
+    match decodeCfg toks, decodeCtx toks, decodeConnect toks with
+    | some cfg, some ctx, some c => shortConnectOutcome (processConnect cfg ctx c)
+    | _, _, _ => "bad-op"
+  | "cloop" :: fuel :: toks =>
+    -- instances (cfg+ctx tokens) separated by `|`, last segment = the CONNECT request
+    match natOf fuel, (splitBar toks).reverse with
+    | some f, reqToks :: instToksRev =>
+      let insts := instToksRev.reverse.mapM fun t =>
+        match decodeCfg t, decodeCtx t with
+        | some c, some x => some (c, x)
+        | _, _ => none
+      match insts, decodeConnect reqToks with
+      | some is, some c =>
+        if is.isEmpty then "bad-op"
+        else " ".intercalate ("hops" :: (runConnectLoop is f 0 c).map shortConnectOutcome)
+      | _, _ => "bad-op"
+    | _, _ => "bad-op"
   | "loop" :: fuel :: toks =>
     match natOf fuel, (splitBar toks).reverse with
     | some f, reqToks :: instToksRev =>
